@@ -82,3 +82,9 @@ ASSUME.update({
          "the pack index is atomic per Set / CommitBatch and survives restarts (C10)",
          "the translator reports the order of the first CommitBatch and delete calls in RemoveBlobs and whether walkPack calls Stat; how the results are used is covered by the correspondence"],
 })
+ASSUME.update({
+ "C04": ["a zip is abstracted to the list of logical blobs its manifest names; zip ids are fresh (content-addressed: one id, one manifest); byte offsets, archive/zip and the size estimate are exercised by the harness (limit, first entry, hash name checked with archive/zip), not modelled",
+         "which blobs the packer puts into which zip is taken from the manifests it wrote (input of the model)",
+         "the small / large stores and the meta index are maps with atomic operations and batches (C01, C10); a crash is the refusal of every write after the k-th",
+         "the translator reports whether RemoveBlobs hands the whole list of blobs to the loose store"],
+})
